@@ -290,9 +290,13 @@ theorem invF_consumer {k : Nat} {s s' : St V} (hi : InvF k s)
     · exact he
   · rw [hel, hgs]; exact hi.r5
 
-theorem invF_step {k : Nat} {s s' : St V} {l : Label V} (ha : InvA k s) (hc : InvC k s) (hi : InvF k s)
-    (h : step s l = some s') : InvF k s' := by
+/-- `ho`: the context handed to the inputs ends only through `cancel()` (the environment label `ctxEnds` is
+dead) — this is what makes "`cancelled` before `Close` implies the CAS was won" (`j3`) and "a context error
+reaches the CAS only after `cancel()`" (`r3`) invariants. -/
+theorem invF_step {k : Nat} {s s' : St V} {l : Label V} (ho : ctxOrigin = .plainCancel) (ha : InvA k s)
+    (hc : InvC k s) (hi : InvF k s) (h : step s l = some s') : InvF k s' := by
   cases l with
+  | ctxEnds => exact (no_ctxEnds (ha.org.trans ho) h).elim
   | inItem i v =>
     obtain ⟨g, hg, hp, rfl⟩ := step_inItem h
     exact invF_gor ha hc hi hg (.item g v hp) rfl rfl (.inl rfl) (.inl rfl) (.inl ⟨rfl, rfl⟩) (fun _ h => .inl h)
@@ -387,6 +391,10 @@ theorem invF_step {k : Nat} {s s' : St V} {l : Label V} (ha : InvA k s) (hc : In
     obtain ⟨hp, rfl⟩ := step_cCtx h
     exact invF_consumer hi rfl rfl rfl rfl rfl rfl (fun _ rest hr => by rw [hp] at hr; cases hr)
       (fun _ he => by simp at he; exact .inl he) (fun he => by simp at he; exact .inl he)
+  | cExpire =>
+    obtain ⟨hp, rfl⟩ := step_cExpire h
+    exact invF_consumer hi rfl rfl rfl rfl rfl rfl (fun _ rest hr => by rw [hp] at hr; cases hr)
+      (fun _ he => .inl he) (fun he => .inl he)
   | cEnd =>
     obtain ⟨live, hp, hpos, rfl⟩ := step_cEnd h
     have hn : notClosing s := fun rest hr => by rw [hp] at hr; cases hr
@@ -472,9 +480,9 @@ theorem cEnd_enabled {s : St V} {live : Bool} (hc : s.cpc = .inNext live) (hpos 
   obtain ⟨_, _, _, rfl⟩ := step_cEnd hs'
   exact ⟨_, hs', rfl, rfl, rfl⟩
 
-theorem reach_invF {k : Nat} {s : St V} (h : Reach (init V k) s) : InvF k s := by
+theorem reach_invF {k : Nat} {s : St V} (ho : ctxOrigin = .plainCancel) (h : Reach (init V k) s) : InvF k s := by
   induction h with
   | refl => exact invF_init k
-  | step l hr hs ih => exact invF_step (reach_invA hr) (reach_invC hr) ih hs
+  | step l hr hs ih => exact invF_step ho (reach_invA hr) (reach_invC hr) ih hs
 
 end Juniper.Proofs.StreamMerge
